@@ -57,13 +57,19 @@ def _progs_for(prop, tier, seed):
         for p in dupp:
             p.name += "__dup"
         add(dupp, "run", ["mismatch", "nonterm", "panic"], dup=True)
+        # run() of a program compiled with #![generate_run_timeout] delegates to run_timeout: same obligations
+        rtp = [p for p in gen.c04_curated() if p.name in ("agg_count_key", "agg_sum_min_max", "agg_global", "neg_basic")]
+        for p in rtp:
+            p.attrs.append("generate_run_timeout")
+            p.name += "__rtrun"
+        add(rtp, "run", ["mismatch", "nonterm", "panic"])
     elif prop == "C06":
         add(gen.c06_variants(seed, per_base=6 if q else 18), "run", ["mismatch", "nonterm", "panic"])
     elif prop == "C07":
         add(gen.c07_curated() + gen.random_programs(7000 + seed, 20 if q else 150, prefix="rsug", max_arity=2, max_body=2, sugar=True),
             "run", ["mismatch", "nonterm", "panic"])
     elif prop == "C08":
-        add(gen.c08_curated(), "run", ["mismatch", "nonterm", "panic"])
+        add(gen.c08_curated() + gen.random_macro_programs(8000 + seed, 10 if q else 80), "run", ["mismatch", "nonterm", "panic"])
     elif prop == "C09":
         vs = gen.c09_variants()
         add([p for p in vs if getattr(p, "scenario", "run") == "run"], "run", ["mismatch", "nonterm", "panic"])
@@ -71,6 +77,9 @@ def _progs_for(prop, tier, seed):
     elif prop == "C13":
         base = gen.c01_curated() + gen.c03_curated() + gen.c04_curated()
         add(base, "rerun", ["mismatch", "nonterm", "panic"])
+        # idempotence alone (second observation = first), for programs whose meaning the reference semantics
+        # does not fix: equality tests on lattice values (the lattice column bound in a body clause)
+        add(gen.c13_extra(), "idem", ["mismatch", "nonterm", "panic"])
         # pushes: positive programs; lattice programs only where relations read lattice values through
         # upward-closed tests (a non-monotone read of a lattice value behaves like an aggregate)
         pos = gen.c01_curated() + [p for p in gen.c03_curated() if p.name not in ("constprop", "lat_nokey")]
@@ -86,7 +95,7 @@ def _progs_for(prop, tier, seed):
     elif prop == "C14":
         # (agg_lattice_value_bound is the vehicle of finding F8, a C04 matter: even an uninterrupted run is wrong)
         base = gen.c01_curated() + [p for p in gen.c04_curated() if p.name != "agg_lattice_value_bound"] + gen.c14_lattice()
-        sel = base if not q else [p for p in base if p.name in ("tc", "two_strata", "mutual3", "facts_multihead", "agg_chain", "agg_over_recursive", "consts_repeats", "generators", "neg_basic", "lat_scan_later", "lat_sp_small")]
+        sel = base if not q else [p for p in base if p.name in ("tc", "two_strata", "mutual3", "facts_multihead", "agg_chain", "agg_over_recursive", "agg_count_key", "agg_global", "consts_repeats", "generators", "neg_basic", "lat_scan_later", "lat_sp_small")]
         for p in sel:
             p.attrs.append("generate_run_timeout")
             p.name = p.name + "__rt"
@@ -177,8 +186,11 @@ def role_of(prop, job, res):
     cex_in = (res.get("cex") or {}).get("inputs") or {}
     dup_in_agg = any(len(rows) != len(set(rows)) for rn, rows in cex_in.items() if rn in agg_rels)
     dl = (res.get("cex") or {}).get("deadline_checks") or []
+    sccs = (res.get("cex") or {}).get("interrupted_in_scc") or []
     return {"cex_duplicates_tuple_in_aggregated_relation": dup_in_agg,
-            "first_call_interrupted": bool(dl and dl[0] > 0),"scenario": job["scenario"]["kind"], "failure": kinds[0] if kinds else "?", "dup_inputs": bool(job["scenario"].get("dup")),
+            "first_call_interrupted": bool(dl and dl[0] > 0),
+            # some interrupted call got past the first stratum (so at least one stratum had been completed and handed back)
+            "an_interrupted_call_had_completed_a_stratum": any(s is not None and s > 0 for s in sccs),"scenario": job["scenario"]["kind"], "failure": kinds[0] if kinds else "?", "dup_inputs": bool(job["scenario"].get("dup")),
             "multiplicity_sensitive_agg": feats["msagg"], "agg_over_lattice_value": feats["agg_lat_val"],
             "has_lattice": feats["lattice"], "has_agg": feats["agg"]}
 
